@@ -81,6 +81,9 @@ pub struct Emitted {
     pub spans: Vec<Span>,
     /// (row, col) of the first character of every statement (simple and block)
     pub starts: HashMap<StmtId, (u32, u32)>,
+    /// rows of the secondary header lines of a block statement: (stmt, k) where k = 1..
+    /// for ELSEIF conditions, CASE lines and the LOOP line of a bottom-tested DO
+    pub extra_rows: HashMap<(StmtId, usize), u32>,
     pub rows: u32,
 }
 
@@ -500,7 +503,7 @@ impl<'a> Emitter<'a> {
                     );
                     self.header(s.id, depth, &t);
                     self.list(then_b, depth + 1, in_function);
-                    for (c, b) in elseifs {
+                    for (ei, (c, b)) in elseifs.iter().enumerate() {
                         let t = format!(
                             "{} {} {}",
                             self.kw("ELSEIF"),
@@ -508,6 +511,7 @@ impl<'a> Emitter<'a> {
                             self.kw("THEN")
                         );
                         self.line(depth, &t);
+                        self.out.extra_rows.insert((s.id, ei + 1), self.row());
                         self.list(b, depth + 1, in_function);
                     }
                     if let Some(b) = else_b {
@@ -596,6 +600,7 @@ impl<'a> Emitter<'a> {
                     } else {
                         let t = format!("{} {}", self.kw("LOOP"), c);
                         self.line(depth, &t);
+                        self.out.extra_rows.insert((s.id, 1), self.row());
                     }
                 }
                 StmtKind::Select {
@@ -605,7 +610,7 @@ impl<'a> Emitter<'a> {
                 } => {
                     let t = format!("{} {}", self.kw("SELECT CASE"), self.expr(expr, false));
                     self.header(s.id, depth, &t);
-                    for (specs, b) in cases {
+                    for (ci, (specs, b)) in cases.iter().enumerate() {
                         let mut parts = vec![];
                         for sp in specs {
                             parts.push(match sp {
@@ -623,6 +628,7 @@ impl<'a> Emitter<'a> {
                         }
                         let t = format!("{} {}", self.kw("CASE"), parts.join(", "));
                         self.line(depth, &t);
+                        self.out.extra_rows.insert((s.id, ci + 1), self.row());
                         self.list(b, depth + 1, in_function);
                     }
                     if let Some(b) = else_b {
